@@ -58,7 +58,7 @@ func c23(c *rig.Ctx) {
 		if i < 3 {
 			c.Sample(map[string]any{"run": run.payload(), "stats": st, "merge_path_commits": mergePath, "one_tx": sampleTx(run)})
 		}
-		if distinctViolationKeys() > 8 {
+		if distinctViolationKeys() > 25 {
 			break
 		}
 	}
